@@ -50,7 +50,7 @@ func runFree(bin string, seed int64, rounds int) (recs []freeRec, stderr string,
 	go func() { done <- cmd.Wait() }()
 	select {
 	case err = <-done:
-	case <-time.After(10 * time.Minute):
+	case <-time.After(25 * time.Minute):
 		cmd.Process.Kill()
 		return nil, se.String(), fmt.Errorf("free-running driver timed out")
 	}
@@ -68,7 +68,7 @@ func freeRunning(ctx *core.Ctx) error {
 	if err != nil {
 		return err
 	}
-	rounds := ctx.Pick(60, 1500)
+	rounds := ctx.Pick(60, 500)
 	seed := ctx.Seed*7919 + 11
 	recs, stderr, err := runFree(bin, seed, rounds)
 	if strings.Contains(stderr, "WARNING: DATA RACE") {
